@@ -400,3 +400,13 @@ if __name__ == "__main__":
     p = os.path.join(E2DIR, "gen-manual.rs")
     open(p, "w").write(g.text)
     print(p, "errors:", g.errors)
+
+
+def warm(log):
+    """pre-build the primitive-table driver (parser crate) and let verus start once"""
+    import leafarms
+    try:
+        leafarms.primtable()
+        log("[warm] primtable ok")
+    except Exception as ex:  # noqa: BLE001
+        log(f"[warm] primtable: {ex!r}")
